@@ -470,6 +470,43 @@ def s2_any_check(ctx, c, outs):
     return None
 
 
+def s2_hemisphere_check(ctx, c, outs):
+    """the target region of a hemisphere mesh: `hemisphere="upper"` returns unit vectors with z >= 0 only, "lower" z <= 0 only
+    (whatever the offset), and the mesh covers that hemisphere within the method's bound"""
+    from orix.sampling import sample_S2
+    kw = {"hemisphere": c["hemisphere"]}
+    if c["method"] == "uv":
+        kw["offset"] = c["offset"]
+    try:
+        with warnings.catch_warnings():
+            warnings.simplefilter("ignore")
+            v = sample_S2(c["resolution"], method=c["method"], **kw).data.reshape(-1, 3)
+    except Exception as e:
+        return f"sample_S2({c['resolution']}, method={c['method']!r}, {kw}) raises {type(e).__name__}: {e}"
+    if len(v) == 0:
+        return f"sample_S2({c['resolution']}, method={c['method']!r}, {kw}) returns an empty grid"
+    if np.abs(np.linalg.norm(v, axis=1) - 1).max() > 1e-12:
+        return f"sample_S2({c['resolution']}, method={c['method']!r}, {kw}) returns non-unit vectors"
+    sgn = {"upper": 1.0, "lower": -1.0}.get(c["hemisphere"])
+    if sgn is not None:
+        bad = v[sgn * v[:, 2] < -1e-12]
+        if len(bad):
+            return (f"sample_S2({c['resolution']}, method={c['method']!r}, {kw}): {len(bad)} of {len(v)} vectors lie outside the "
+                    f"{c['hemisphere']} hemisphere, e.g. {bad[0].tolist()} (polar angle {np.rad2deg(np.arccos(bad[0][2])):.3f} deg)")
+    rng = np.random.default_rng(c["seed"])
+    t = rng.normal(size=(c["n_targets"], 3))
+    t /= np.linalg.norm(t, axis=1, keepdims=True)
+    if sgn is not None:
+        t[:, 2] = sgn * np.abs(t[:, 2])
+    rad = np.rad2deg(np.arccos(np.clip((t @ v.T).max(axis=1), -1, 1)))
+    # an offset mesh starts up to one step away from the pole / from the equator: one more resolution
+    bound = max(float(S2_BOUND[c["method"]](c["resolution"])), 0.9 * c["resolution"]) + c["resolution"]
+    if float(rad.max()) > bound:
+        return (f"covering radius of sample_S2({c['resolution']}, method={c['method']!r}, {kw}) over its hemisphere is {rad.max():.2f} deg > "
+                f"{bound:.2f} deg (direction {t[int(np.argmax(rad))].tolist()})")
+    return None
+
+
 def so3_space_group_check(ctx, c, outs):
     """the space_group= route of get_sample_fundamental: same sample as for the proper point group of that space group,
     inside the fundamental zone of that proper group"""
@@ -627,6 +664,7 @@ SITES = {
     "cube_mesh": sites.Site("cube_mesh", "corr", cube_check, cube_lines),
     "hexagonal_mesh": sites.Site("hexagonal_mesh", "corr", hex_check, hex_lines),
     "s2_any_resolution": sites.Site("s2_any_resolution", "prop", s2_any_check),
+    "s2_hemisphere": sites.Site("s2_hemisphere", "prop", s2_hemisphere_check),
     "so3_num_steps": sites.Site("so3_num_steps", "corr", so3steps_check, so3steps_lines),
     "so3_grid": sites.Site("so3_grid", "corr", so3grid_check, so3grid_lines),
 }
@@ -755,6 +793,14 @@ def generate_s2_model(ctx):
         for m in ("quaternion", "haar_euler"):
             ctx.count("so3_grid/rejected", ("so3g", m, r), nontrivial=False)
             yield "so3_grid", {"method": m, "resolution": r, "full": False, "n_targets": 0, "seed": 0}
+    # hemisphere meshes: every vector in the requested hemisphere, for every offset
+    for r in [x for x in rs if 0.9 <= x <= 90.0]:
+        for m, offs in (("uv", offsets), ("equal_area", (0.0,))):
+            for h in HEMIS:
+                for off in offs:
+                    ctx.count(f"s2_hemisphere/{m}/{h}", ("hemi", m, r, h, off))
+                    yield "s2_hemisphere", {"method": m, "resolution": r, "hemisphere": h, "offset": off,
+                                            "n_targets": 200 if quick else 1000, "seed": int(rng.integers(1 << 30))}
     # the property itself on the implementation at the awkward resolutions
     for r in rs:
         for m in S2_BOUND:
